@@ -259,7 +259,9 @@ def run(ctx):
     cov['bounds'].update({'depth': depth, 'max_live_orders': 3, 'configs': configs(ctx)})
     ctx.assumptions += ['sell orders are submitted reduce-only, as the strategy layer submits exits; closing the position cancels everything resting (real strategy close path)',
                         'MARKET submission and its flush are one atomic step here (their interleavings belong to C05)',
-                        'rejection verdicts within 1e-9 relative of the threshold are dont-care']
+                        'rejection verdicts within 1e-9 relative of the threshold are dont-care',
+                        'configuration keep_on_close: the strategy layer\'s cancel-on-close is switched off so that resting sells survive the sale of the holding; '
+                        'the fill of a resting sell that is larger than the base held is not in its alphabet (the cash account does not define it)']
 
 
 def replay(case, ctx):
